@@ -49,8 +49,9 @@ RULE = ("one case = one crash state (interruption point of save_model or truncat
 TRUSTED = ["CPython's unpickler raises on every strict prefix of a pickle (observed on every prefix tried; the class is fed to the model)",
            "pickle.dump of the same db gives the same bytes within one process (checked per model)",
            "a reader's pickle.load sees one snapshot of the file (threads run one at a time; real processes could interleave reads with writes of the same bytes)"]
-ASSUMPTIONS = ["the two concurrent calls compile the same sources with the same options (same bytes); spliced files of different caches are only sampled in the thorough tier, outside the Lean model",
-               "shared libraries torn by the linker (codegen) are outside the model",
+ASSUMPTIONS = ["a writer killed while the linker writes a shared library is exercised by fixed cases only (library cut in half, follow-up calls in a child process)",
+               "the two concurrent calls compile the same sources with the same options (same bytes); spliced files of different caches are only sampled in the thorough tier, outside the Lean model",
+               "shared libraries torn by the linker (codegen) are outside the Lean model (direct oracle only)",
                "process death is modelled by what is on disk: a prefix of the pickle at write-call or byte granularity"]
 
 EXC_TABLE = [
@@ -968,6 +969,96 @@ def codegen_interruption(ctx, drv, idx, k):
         shutil.rmtree(root, ignore_errors=True)
 
 
+SUBPROCESS_RUNNER = """
+import gc, json, sys
+sys.path[:0] = json.loads(sys.argv[1])
+from harness.gen import a12_cache as G
+from pymoca.backends.casadi import api
+G.quiet_logging()
+folder, opts = sys.argv[2], json.loads(sys.argv[3])
+out = []
+for i in range(2):
+    ok, m, msg = G.outcome(api.transfer_model, folder, "M", dict(opts))
+    out.append({"ok": ok, "cls": type(m).__name__ if ok else m, "msg": msg, "sig": G.signature(m, 2, 3) if ok else None})
+    del m
+    gc.collect()
+    print("STEP " + json.dumps(out[-1]), flush=True)
+"""
+
+
+def codegen_link_interruption(ctx, idx, j):
+    """The writer is killed while the linker writes library j: the first j libraries are complete, library j is
+    there but cut in half, no cache file.  The next two transfer_model(codegen) calls run in a child process (a
+    partial shared library handed to the dynamic loader can kill the process) and must both be correct."""
+    import json
+    import subprocess
+    import sys
+    from pymoca.backends.casadi import api
+    root = os.path.join(ctx.scratch, "cgl%03d" % idx)
+    w = G.CacheWorld(root)
+    opts = {"codegen": True}
+    case = {"stream": "codegen-link-interrupt", "text": CODEGEN_TEXT, "opts": opts, "j": j}
+    orig_codegen = api._codegen_model
+    try:
+        w.write(0, "M.mo", CODEGEN_TEXT)
+        rok, rm, rmsg = w.reference(opts, [])
+        if not rok:
+            raise HarnessError("codegen bench model does not compile: %s %s" % (rm, rmsg))
+        ref = G.signature(rm, 2, 3)
+        del rm
+        calls = [0]
+
+        def dying_codegen(*a, **kw):
+            lib = orig_codegen(*a, **kw)
+            if calls[0] == j:
+                size = os.path.getsize(lib)
+                with open(lib, "r+b") as f:
+                    f.truncate(size // 2)
+                raise SimCrash("killed while linking %s" % os.path.basename(lib))
+            calls[0] += 1
+            return lib
+        api._codegen_model = dying_codegen
+        try:
+            ok, r, msg = G.outcome_base(api.transfer_model, w.dirs[0], "M", w.real_opts(opts, []))
+        finally:
+            api._codegen_model = orig_codegen
+        ctx.case({"stream": "codegen-link-interrupt", "j": j}, nontrivial=True, key=["cgl", j])
+        ctx.count("codegen-link-interrupt:j=%d" % j)
+        if ok or r != "SimCrash":
+            ctx.tie_broken("codegen-link-interrupt:not-reached", "%s %s" % (r, msg))
+            return True
+        left = sorted(fn for fn in os.listdir(w.dirs[0]) if not fn.endswith(".mo"))
+        runner = os.path.join(root, "runner.py")
+        with open(runner, "w") as f:
+            f.write(SUBPROCESS_RUNNER)
+        pr = subprocess.run([sys.executable, runner, json.dumps([p for p in sys.path if p]), w.dirs[0],
+                             json.dumps(w.real_opts(opts, []))], stdout=subprocess.PIPE, stderr=subprocess.PIPE, text=True,
+                            timeout=600, cwd=os.getcwd())
+        steps = [json.loads(l[5:]) for l in pr.stdout.splitlines() if l.startswith("STEP ")]
+        for n_, st in enumerate(steps):
+            which = ["next", "after-next"][n_]
+            if not st["ok"]:
+                ctx.violation("transfer_model(codegen) raised %s on the %s call after the writer was killed while linking library %d "
+                              "(files left: %s)" % (st["cls"], which, j, left), case, expected="a correct model",
+                              observed="%s: %s" % (st["cls"], st["msg"]), kind="crash")
+                return False
+            df = G.diff(ref, st["sig"])
+            if df:
+                ctx.violation("transfer_model(codegen) returned a wrong model on the %s call after the writer was killed while "
+                              "linking library %d: %s" % (which, j, df[0]), case, expected="fresh compile", observed=df, kind="crash")
+                return False
+        if pr.returncode != 0 or len(steps) < 2:
+            ctx.violation("the process calling transfer_model(codegen) died (exit status %s) on the %s call after the writer was "
+                          "killed while linking library %d (files left: %s)" % (pr.returncode, ["next", "after-next"][min(len(steps), 1)], j, left),
+                          case, expected="two correct models", observed=(pr.stderr or "")[-300:], kind="crash")
+            return False
+        return True
+    finally:
+        api._codegen_model = orig_codegen
+        w.close()
+        shutil.rmtree(root, ignore_errors=True)
+
+
 def make_benches(ctx, quick):
     rng = ctx.rng
     specs = []
@@ -1021,6 +1112,10 @@ def run(ctx):
     cg_ks = [ctx.rng.choice([0, 1]), ctx.rng.choice([2, 3])] if quick else [0, 1, 2, 3, 4]
     for n_, k in enumerate(cg_ks):
         if not codegen_interruption(ctx, drv, n_, k):
+            return
+    # ... or while the linker is writing one of them (outside the Lean model; the follow-up calls run in a child process)
+    for n_, j in enumerate([1] if quick else [0, 1, 3]):
+        if not codegen_link_interruption(ctx, n_, j):
             return
     benches = make_benches(ctx, quick)
     if ctx.violations or not benches:
@@ -1127,6 +1222,9 @@ def replay(ctx, payload):
         return
     if c.get("stream") == "codegen-interrupt":
         codegen_interruption(ctx, drv, 77, c["k"])
+        return
+    if c.get("stream") == "codegen-link-interrupt":
+        codegen_link_interruption(ctx, 78, c["j"])
         return
     b = CrashBench(ctx, 900, c["text"], {k: v for k, v in c["opts"].items() if k != "cache"})
     try:
